@@ -445,6 +445,10 @@ def check_c17(prop, tier, replay):
         ck.cov["trace_lines"] += tr["lines"]
         ck.cov["traces_validated_against_impl"] += summ.get("scenarios", 0)
         ck.cov.setdefault("pools", []).append({"pool": name, "scenarios": summ.get("scenarios", 0), "lines": tr["lines"], "crashed_workers": len(crashed)})
+        # a recorded finding of the engine itself shows through the manager unchanged: that is what C17 asks for, not a C17 matter
+        inherited = [v for v in tr["viol"] if v[2] and v[2] in ck.findings.open]
+        ck.cov["engine_findings_seen_through_manager"] = ck.cov.get("engine_findings_seen_through_manager", 0) + len(inherited)
+        tr = dict(tr, viol=[v for v in tr["viol"] if not (v[2] and v[2] in ck.findings.open)])
         ck.route(["C"], tr, path, "vh table --via manager, pool " + name)
         with open(path) as f:
             for l in f:
